@@ -4,6 +4,7 @@ CONSTANTS
   MaxCalls = 2
   ArgVals = {0, 1, 2, 3, 4}
   MaxArgs = 2
+  OptSets <- OptSetsMC
 INVARIANTS Commutes Idempotent Ascending
 CONSTRAINT Emit
 CHECK_DEADLOCK FALSE
